@@ -352,7 +352,12 @@ class Built:
     r = beh.get('r', 'C')
     if r == 'T' or (isinstance(r, list) and 'T' in r):
       opts.setdefault('timeout_s', 10)
-    if opts:
+    if opts and beh.get('stack') and 'repeat_limit' in opts:
+      # options given by two decorator layers: the repeat limit first, the rest
+      # (or just the name) on top; a later layer must not undo an earlier one
+      ph = H.PhaseOptions(repeat_limit=opts.pop('repeat_limit'))(ph)
+      ph = H.PhaseOptions(**opts)(ph) if opts else H.PhaseOptions(name=pid)(ph)
+    elif opts:
       ph = H.PhaseOptions(**opts)(ph)
     return ph
 
